@@ -77,6 +77,8 @@ def build(src: str, dst: str, mutations: list[dict], readonly: bool = False) -> 
             elif op == "shift_sensor":    # the importer's ephemeris of a sensor differs from where its stored observations were taken from
                 con.execute("update truth_ephemerides set pos_x_km = pos_x_km + ?, pos_y_km = pos_y_km + ?, pos_z_km = pos_z_km + ? where agent_id = ?",
                             (m["d"][0], m["d"][1], m["d"][2], m["agent"]))
+            elif op == "shift_obs_sensor":  # stored observations were taken from a position a few km from where the sensor is in the importing run
+                con.execute("update observations set pos_x_km = pos_x_km + ?, pos_y_km = pos_y_km + ?, pos_z_km = pos_z_km + ?", tuple(m["d"]))
             elif op == "drop_observations":
                 con.execute("delete from observations")
             else:
